@@ -26,6 +26,13 @@ def one(e, base):
         for p in glob.glob(os.path.join(d, 'optree', '**', '*.py'), recursive=True):
             out, _ = rename_module(open(p).read())
             open(p, 'w').write(out)
+    elif e.get('generator') == 'rename-cxx-locals':
+        env = dict(os.environ, OPTREE_VERIF_CACHE=os.path.join(base, 'cache'), OPTREE_VERIF_CACHE_KEEP='500')
+        r = subprocess.run([sys.executable, os.path.join(HERE, 'rename_cxx_locals.py'), d],
+                           capture_output=True, text=True, env=env, cwd=VERIF)
+        if r.returncode != 0:
+            shutil.rmtree(d, ignore_errors=True)
+            return {'id': e['id'], 'status': 'BAD-PATTERN', 'detail': (r.stdout + r.stderr)[-300:]}
     else:
         p = os.path.join(d, e['file'])
         s = open(p).read()
